@@ -27,7 +27,7 @@ WithNow(e) == [op |-> e.op, a |-> e.a, now |-> 0]
 RECURSIVE ApplyAll(_, _)
 ApplyAll(S, ops) == IF ops = <<>> THEN S ELSE ApplyAll(Dispatch(S, WithNow(ops[1])).S, Tail(ops))
 KeyOf(cl) == IF "k" \in DOMAIN cl.a THEN cl.a.k ELSE <<>>
-Writes(op) == op \in {"set", "add", "incr", "pop", "delete", "touch", "clear"}
+Writes(op) == op \in {"set", "add", "incr", "pop", "delete", "touch", "clear", "push", "pull"}
 
 LInit == /\ tid \in 1..NT /\ l = 1
          /\ db = ApplyAll(EmptyCache("none", 0, 1000000000, FALSE), Traces[tid].init.ops)
